@@ -146,6 +146,19 @@ def run_child(job, jobdir, timeout=CHILD_TIMEOUT):
     return ChildResult("crashed", r.returncode, rep, r.stdout, r.stderr)
 
 
+def private_view(shared, name):
+    """A private directory for one definer process whose __pkts__ is the *shared* cache directory
+    (symlink).  Every process declares its class in its own `<module>.py` (as separate programs /
+    test workers would) while all of them share one generated-code cache."""
+    os.makedirs(os.path.join(shared, "__pkts__"), exist_ok=True)
+    d = os.path.join(shared, "view_%s" % name)
+    os.makedirs(d, exist_ok=True)
+    link = os.path.join(d, "__pkts__")
+    if not os.path.islink(link):
+        os.symlink(os.path.join(shared, "__pkts__"), link)
+    return d
+
+
 def cache_dir(workdir):
     return os.path.join(workdir, "__pkts__")
 
